@@ -42,6 +42,8 @@ def run(ctx, module, cfg=None, mode="check", workers=16, depth=None, num=None, s
 
     cfg_text: literal cfg contents (written to <module>_run.cfg); constants: dict appended to cfg as CONSTANT lines.
     """
+    from .core import max_workers
+    workers = min(workers, max_workers())
     d = stage(ctx.workdir)
     cfg = cfg or (module + ".cfg")
     if cfg_text is not None:
